@@ -36,8 +36,12 @@ func ruleM29NotGatedByReceiving(p *Prog, l *Ledger, tier string) {
 			}
 			for _, b := range g.Blocks {
 				for _, ins := range b.Instrs {
-					if st, ok := ins.(*ssa.Store); ok {
-						if fa, ok := st.Addr.(*ssa.FieldAddr); ok && fieldName(fa.X.Type(), fa.Field) == "tripletM29" {
+					// the field is stored into, or its address is handed on (to a setter shared with X/28)
+					if fa, ok := ins.(*ssa.FieldAddr); ok && fieldName(fa.X.Type(), fa.Field) == "tripletM29" {
+						for _, r := range *fa.Referrers() {
+							if u, isLoad := r.(*ssa.UnOp); isLoad && u.Op == token.MUL {
+								continue
+							}
 							return true
 						}
 					}
